@@ -17,8 +17,9 @@ RULE = ("random directory trees: up to 12 modules in packages of depth 0..3 spre
         "bloch/lang/Object.bloch. Distinct = distinct (tree, entry, search path list, cwd) "
         "configurations; non-trivial = at least one import.")
 ASSUMPTIONS = ["merged order observed through the public ModuleLoader API (class/function names)",
-               "kept out (not fixed by the docs): an earlier root that has the package directory "
-               "but no .bloch file in it, a file wildcard-importing its own package, file names "
+               "a root whose package directory holds no .bloch file (for instance only a sub-package) does not "
+               "answer a wildcard import: the search continues with the next root, as for a missing file",
+               "kept out (not fixed by the docs): a file wildcard-importing its own package, file names "
                "differing only by case, unreadable files",
                "when several problems coexist the reference reports the first one in the documented "
                "depth-first import order (dependencies before importers)"]
@@ -58,6 +59,13 @@ def gen_tree(rng, root):
                 continue
             if rng.random() < 0.25 and t["pkg"] and t["pkg"] != m["pkg"]:
                 m["imports"].append(("wild", t["pkg"]))
+            elif m["pkg"] and len(t["pkg"]) > len(m["pkg"]) and t["pkg"][:len(m["pkg"])] == m["pkg"] \
+                    and rng.random() < 0.6:
+                # the same file named relative to the importer's own directory: 'import b.M;' from a/X.bloch
+                # reaches a/b/M.bloch, whose package line says a.b, not b
+                m["imports"].append(("sym", t["pkg"][len(m["pkg"]):], t["name"]))
+                if rng.random() < 0.6:
+                    entry["imports"].insert(0, ("sym", t["pkg"], t["name"]))   # ... after a correct import loaded it
             else:
                 m["imports"].append(("sym", t["pkg"], t["name"]))
         if rng.random() < 0.07:
@@ -163,7 +171,8 @@ def reference(cfg):
                           if n.endswith(".bloch") and os.path.isfile(os.path.join(cand, n)))
             if mods:
                 return mods
-            raise LoadError("kept-out:empty-package-dir")
+            # a directory without module files offers nothing to load: the search goes on ("else the
+            # configured search paths, else the working directory")
         return []
 
     def load_module(path):
